@@ -230,6 +230,13 @@ class Closure:
         self.loc, self.captures = loc, tuple(captures)
 
 
+class FnItem:
+    """A function named as a value (`.map(ConstantPoolIndex::new)`)."""
+
+    def __init__(self, name):
+        self.name = name
+
+
 class MapV:
     """HashMap / IndexMap with concrete keys in insertion order: tuple of (key string, value cell id)."""
 
@@ -365,14 +372,28 @@ class Executor:
         if callee in self.bodies:
             return self.bodies[callee]
         name = callee
-        # strip generic arguments
+        # strip generic arguments (turbofish segments, nested ones included)
         prev = None
         while prev != name:
             prev = name
             name = re.sub(r"::<[^<>]*>", "", name)
+        while "::<" in name:
+            i = name.index("::<")
+            depth, j = 0, i + 2
+            while j < len(name):
+                if name[j] == "<":
+                    depth += 1
+                elif name[j] == ">" and name[j - 1] not in "-=":
+                    depth -= 1
+                    if depth == 0:
+                        break
+                j += 1
+            if j >= len(name):
+                break
+            name = name[:i] + name[j + 1:]
         if name in self.bodies:
             return self.bodies[name]
-        m = re.match(r"^<(.+?) as (.+)>::(\w+)$", callee)
+        m = re.match(r"^<(.+?) as (.+)>::(\w+)$", callee) or re.match(r"^<(.+?) as (.+)>::(\w+)$", name)
         short = lambda t: re.sub(r"[A-Za-z_0-9]+::", "", t).replace(" ", "")
         if m:
             self_ty, trait, meth = m.group(1), m.group(2), m.group(3)
@@ -392,6 +413,11 @@ class Executor:
             strip = lambda t: short(t).lstrip("&").replace("mut", "")
             cands = [b for k, b in self.bodies.items() if re.search(r"<impl at [^>]+>::%s$" % re.escape(meth), k) and len(b.params) == nargs
                      and b.params and strip(b.params[0][1]) == strip(self_ty)]
+            if len(cands) == 1:
+                return cands[0]
+            # a static trait method (no receiver): the impl whose return type is the implementing type
+            cands = [b for k, b in self.bodies.items() if re.search(r"<impl at [^>]+>::%s$" % re.escape(meth), k) and len(b.params) == nargs
+                     and short(b.ret) == short(self_ty) and not (b.params and strip(b.params[0][1]) == strip(self_ty))]
             if len(cands) == 1:
                 return cands[0]
             return None
@@ -594,11 +620,13 @@ class Executor:
             return frame[s]
         if s.startswith("(*") and s.endswith(")"):
             inner = store[self.place(body, s[2:-1], frame, store, create)]
+            if isinstance(inner, Slice):
+                return inner.vec_cell  # a slice reference points at its vector
             if not isinstance(inner, Ref):
                 raise Unsupported("deref of non-reference in %s: %r" % (s, inner))
             return inner.cell
         m = re.match(r"^(.*)\[(_\d+|\d+ of \d+)\]$", s)
-        if m and not s.startswith("("):
+        if m and not (s.startswith("(") and s.endswith(")")):
             base = store[self.place(body, m.group(1), frame, store)]
             base = self.resolve_slice(store, base)
             if not re.match(r"^_\d+$", m.group(2)):
@@ -708,6 +736,8 @@ class Executor:
                 return v if pre == "move " else self.world.copy_value(store, v)
         if s.startswith("const "):
             return self.const(s[len("const "):], store)
+        if re.match(r"^[A-Za-z_][\w:<>, ]*$", s) and any(self.find_body(s, n) is not None for n in (1, 2, 3)):
+            return FnItem(s)
         raise Unsupported("operand not understood: " + s)
 
     def as_bv(self, v):
@@ -715,6 +745,10 @@ class Executor:
             return v
         if isinstance(v, Bool):
             return BV(z3.If(v.t, z3.BitVecVal(1, 8), z3.BitVecVal(0, 8)), 8, False)
+        if isinstance(v, int) and not isinstance(v, bool):
+            return BV(z3.BitVecVal(v, 64), 64, True)  # a concrete enum discriminant used in arithmetic (derived comparisons, or-patterns)
+        if z3.is_expr(v) and z3.is_int(v):
+            return BV(z3.Int2BV(v, 64), 64, True)
         raise Unsupported("integer expected, got %r" % (v,))
 
     def binop(self, op, a, b):
@@ -745,7 +779,7 @@ class Executor:
     def rvalue(self, body, s, frame, store):
         s = s.strip()
         if s.startswith("&"):
-            inner = re.sub(r"^&(raw (const|mut) |mut )?", "", s)
+            inner = re.sub(r"^&(raw (const|mut) |mut )?(\(fake\) |fake shallow |fake )?", "", s)  # fake borrows (match guards) are ordinary reads here
             return Ref(self.place(body, inner, frame, store))
         m = re.match(r"^discriminant\((.+)\)$", s)
         if m:
@@ -753,6 +787,15 @@ class Executor:
             if not isinstance(e, Enum):
                 raise Unsupported("discriminant of %r" % (e,))
             return e.disc
+        m = re.match(r"^PtrMetadata\((.+)\)$", s)
+        if m:  # the length of a slice / vector behind a (raw) pointer
+            v = self.operand(body, m.group(1), frame, store)
+            tgt = store[v.vec_cell] if isinstance(v, Slice) else deref_all(store, v)
+            if isinstance(tgt, Slice):
+                tgt = store[tgt.vec_cell]
+            if not isinstance(tgt, VecV):
+                raise Unsupported("PtrMetadata of %r" % (tgt,))
+            return BV(z3.BitVecVal(len(tgt.cells), 64), 64, False)
         m = re.match(r"^(Not|Neg)\((.+)\)$", s)
         if m:
             v = self.operand(body, m.group(2), frame, store)
@@ -767,7 +810,7 @@ class Executor:
             if isinstance(r, tuple):
                 return Tup([self.world.new(store, r[1]), self.world.new(store, r[2])])
             return r
-        m = re.match(r"^((?:copy|move) .+?) as (.+) \((\w+)\)$", s)
+        m = re.match(r"^((?:copy|move) .+?) as (.+) \((\w+)(?:\(.*\))?\)$", s)
         if m:
             v = self.operand(body, m.group(1), frame, store)
             ty, kind = m.group(2), m.group(3)
@@ -802,6 +845,10 @@ class Executor:
             if all(p.startswith(("copy ", "move ", "const ", "no_retag ")) for p in parts):
                 return Tup([self.world.new(store, self.operand(body, p, frame, store)) for p in parts])
         if s.startswith("[") and s.endswith("]"):
+            rm = re.match(r"^\[(.+); (\d+)(?:_usize)?\]$", s)
+            if rm and len(_split_top(s[1:-1])) == 1:   # [x; N]: N copies
+                v = self.operand(body, rm.group(1), frame, store)
+                return VecV([self.world.new(store, self.world.copy_value(store, v)) for _ in range(int(rm.group(2)))])
             parts = _split_top(s[1:-1])
             return VecV([self.world.new(store, self.operand(body, p, frame, store)) for p in parts])
         m = re.match(r"^(?:[\w:]+::)?(\w+)(?:::<.*>)?::(\w+)(?:\((.*)\))?$", s)
@@ -841,6 +888,13 @@ class Executor:
 
     def call_closure(self, clo, args, pc, store, depth):
         """Calls a closure value: its body takes the closure (by value or by reference) as first parameter."""
+        if isinstance(clo, FnItem):
+            fb = self.find_body(clo.name, len(args))
+            if fb is None:
+                raise Unsupported("function item not found: " + clo.name)
+            for o in self.run(fb, list(args), pc, store, depth + 1):
+                yield ("value", o.value, o.pc, o.store) if o.kind == "return" else (("panic", o.msg, o.pc, o.store) if o.kind == "panic" else ("unreachable", None, o.pc, o.store))
+            return
         b = self.closures.get(clo.loc)
         if b is None:
             raise Unsupported("closure body not found: " + clo.loc)
@@ -981,6 +1035,7 @@ def m_bool_cmp(ex, callee, args, pc, store, depth):
     yield ("value", ex.binop("Eq" if callee.endswith("eq") else "Ne", a, b), pc, store)
 
 
+@MODELS.add(r"^<&?(u8|u16|u32|u64|usize) as (Add|Sub|Mul)(<.*>)?>::(add|sub|mul)$")
 @MODELS.add(r"^<&?(i8|i16|i32|i64|isize) as (Add|Sub|Mul|Div|Rem)(<.*>)?>::(add|sub|mul|div|rem)$")
 def m_checked_arith(ex, callee, args, pc, store, depth):
     """`a op b` on signed primitives as compiled with overflow checks on (the profile Kani and `cargo test` use):
@@ -1096,6 +1151,22 @@ def m_ref_eq(ex, callee, args, pc, store, depth):
                 raise Unsupported("PartialEq::eq of %s returned %r" % (inner, val))
             val = Bool(z3.Not(val.t))
         yield (kind, val, pcx, stx)
+
+
+@MODELS.add(r"^<(?!&)(?!i8|i16|i32|i64|isize|u8|u16|u32|u64|usize|str|bool|std::string::String|String)([\w:]+) as PartialEq(<.*>)?>::ne$")
+def m_derived_ne(ex, callee, args, pc, store, depth):
+    """`!=` on a type whose PartialEq is derived: `ne` is the trait's default method, the negation of the impl's `eq`."""
+    inner = re.match(r"^<([\w:]+) as PartialEq", callee).group(1)
+    body = ex.find_body("<%s as PartialEq>::eq" % inner, 2)
+    if body is None:
+        raise Unsupported("no PartialEq::eq found for " + inner)
+    for o in ex.run(body, list(args), pc, store, depth + 1):
+        if o.kind == "return":
+            if not isinstance(o.value, Bool):
+                raise Unsupported("PartialEq::eq of %s returned %r" % (inner, o.value))
+            yield ("value", Bool(z3.Not(o.value.t)), o.pc, o.store)
+        else:
+            yield (o.kind, o.msg, o.pc, o.store)
 
 
 def lex_compare(ex, store, a, b):
@@ -1529,6 +1600,9 @@ def m_iter_identity(ex, callee, args, pc, store, depth):
         yield ("value", Iter("vec", cells=tuple(ex.world.new(store, t) for t in items)), pc, store)
     elif isinstance(v, Tup) and v.adt == "Range":
         yield ("value", Iter("range", lo=store[v.cells[0]], hi=store[v.cells[1]]), pc, store)
+    elif isinstance(v, (Ref, Slice)) and isinstance(deref_all(store, v) if isinstance(v, Ref) else store[v.vec_cell], (VecV, Slice)):
+        vv, _ = vec_of(ex, store, v)   # `for x in &vec` / `for x in slice`: references to the elements
+        yield ("value", Iter("refs", cells=vv.cells), pc, store)
     else:
         raise Unsupported("into_iter of %r" % (v,))
 
@@ -1548,6 +1622,8 @@ def m_iter_sum(ex, callee, args, pc, store, depth):
 # ---- maps: construction, insertion, iteration (concrete keys, insertion order = IndexMap's documented order)
 
 def concrete_key(k):
+    while isinstance(k, Ref):
+        raise Unsupported("map key behind a reference (needs the store)")
     sv = z3.simplify(k.t)
     if not z3.is_string_value(sv):
         raise Unsupported("map key is not a concrete string")
@@ -1576,6 +1652,29 @@ def m_map_insert(ex, callee, args, pc, store, depth):
     yield ("value", NONE, pc, store)
 
 
+@MODELS.add(r"(HashMap|IndexMap)::<.*>::(keys|values)$")
+def m_map_keys_values(ex, callee, args, pc, store, depth):
+    m = deref_all(store, args[0])
+    if not isinstance(m, MapV):
+        raise Unsupported("%s on %r" % (callee, m))
+    if callee.endswith("::keys"):
+        items = [Ref(ex.world.new(store, Str(z3.StringVal(k)))) for k, _ in m.entries]
+    else:
+        items = [Ref(c) for _, c in m.entries]
+    yield ("value", Iter("vec", cells=tuple(ex.world.new(store, x) for x in items)), pc, store)
+
+
+@MODELS.add(r"Option::<&.*>::(cloned|copied)$")
+def m_opt_cloned(ex, callee, args, pc, store, depth):
+    o = args[0]
+    if not isinstance(o, Enum) or not isinstance(o.disc, int):
+        raise Unsupported("Option::cloned on %r" % (o,))
+    if o.disc == 0:
+        yield ("value", NONE, pc, store)
+    else:
+        yield ("value", some(ex, store, ex.world.copy_value(store, deref_all(store, store[o.payload[1][0]]))), pc, store)
+
+
 @MODELS.add(r"(HashMap|IndexMap)::<.*>::(iter|len|is_empty)$")
 def m_map_misc(ex, callee, args, pc, store, depth):
     m = deref_all(store, args[0])
@@ -1597,7 +1696,7 @@ def m_collect_map(ex, callee, args, pc, store, depth):
             continue
         entries = []
         for t in items:
-            k = concrete_key(stx[t.cells[0]])
+            k = concrete_key(deref_all(stx, stx[t.cells[0]]))
             entries = [(kk, c) for kk, c in entries if kk != k] + [(k, t.cells[1])]
         yield ("value", MapV(entries), pcx, stx)
 
@@ -1626,6 +1725,132 @@ def m_size_of(ex, callee, args, pc, store, depth):
     if not any(a.eq(ax[0]) for a in ex.axioms):
         ex.axioms += ax
     yield ("value", BV(v, 64, False), pc + ax, store)
+
+
+@MODELS.add(r"^(core::)?slice::<impl \[.*\]>::sort$|^(core::)?slice::<impl \[.*\]>::sort_unstable$")
+def m_slice_sort(ex, callee, args, pc, store, depth):
+    """Sorting a vector whose elements are concrete strings or integers (shape-level data such as member names)."""
+    v, cell = vec_of(ex, store, args[0])
+    keys = []
+    for c in v.cells:
+        x = deref_all(store, store[c])
+        sv = z3.simplify(x.t) if isinstance(x, (Str, BV)) else None
+        if sv is not None and z3.is_string_value(sv):
+            keys.append(sv.as_string())
+        elif sv is not None and z3.is_bv_value(sv):
+            keys.append(sv.as_signed_long() if x.signed else sv.as_long())
+        else:
+            yield from _sort_symbolic(ex, v, cell, pc, store)
+            return
+    order = sorted(range(len(keys)), key=lambda i: keys[i])
+    store[cell] = VecV([v.cells[i] for i in order])
+    yield ("value", Unit(), pc, store)
+
+
+def int_leaf(store, x):
+    x = deref_all(store, x)
+    while isinstance(x, Tup) and len(x.cells) == 1:
+        x = deref_all(store, store[x.cells[0]])
+    return x if isinstance(x, BV) else None
+
+
+def _sort_symbolic(ex, v, cell, pc, store):
+    """Sorting up to 4 symbolic integers (or newtypes of one): one path per feasible stable permutation."""
+    import itertools
+    xs = [int_leaf(store, store[c]) for c in v.cells]
+    if any(x is None for x in xs) or len(xs) > 4:
+        raise Unsupported("sort of a vector with symbolic elements")
+    lt = lambda a, b_: (a.t < b_.t) if a.signed else z3.ULT(a.t, b_.t)
+    paths = []
+    for perm in itertools.permutations(range(len(xs))):
+        conds = []
+        for k in range(len(perm) - 1):
+            i, j = perm[k], perm[k + 1]
+            conds.append(z3.Or(lt(xs[i], xs[j]), z3.And(xs[i].t == xs[j].t, z3.BoolVal(i < j))))
+        c = z3.simplify(z3.And(conds)) if conds else z3.BoolVal(True)
+        if ex.feasible(pc + [c]):
+            paths.append((perm, c))
+    for n, (perm, c) in enumerate(paths):
+        st = store if n == len(paths) - 1 else dict(store)
+        st[cell] = VecV([v.cells[i] for i in perm])
+        yield ("value", Unit(), pc + [c], st)
+
+
+@MODELS.add(r"^(std::vec::)?Vec::<.*>::dedup$")
+def m_vec_dedup(ex, callee, args, pc, store, depth):
+    """Vec::dedup on integers (or newtypes of one): consecutive equal elements collapse; forks on symbolic equalities."""
+    v, cell = vec_of(ex, store, args[0])
+    xs = [int_leaf(store, store[c]) for c in v.cells]
+    if any(x is None for x in xs) or len(xs) > 5:
+        raise Unsupported("dedup of %d elements that are not integers" % len(xs))
+
+    def go(k, kept, pcx):
+        if k == len(xs):
+            yield kept, pcx
+            return
+        if not kept:
+            yield from go(k + 1, [k], pcx)
+            return
+        eq = z3.simplify(xs[kept[-1]].t == xs[k].t)
+        if ex.feasible(pcx + [eq]):
+            yield from go(k + 1, kept, pcx + [eq])
+        if ex.feasible(pcx + [z3.Not(eq)]):
+            yield from go(k + 1, kept + [k], pcx + [z3.Not(eq)])
+    results = list(go(0, [], pc))
+    for n, (kept, pcx) in enumerate(results):
+        st = store if n == len(results) - 1 else dict(store)
+        st[cell] = VecV([v.cells[i] for i in kept])
+        yield ("value", Unit(), pcx, st)
+
+
+@MODELS.add(r"^(core::)?slice::<impl \[.*\]>::windows$")
+def m_slice_windows(ex, callee, args, pc, store, depth):
+    v, _ = vec_of(ex, store, args[0])
+    n = ex.concretize(args[1].t, pc, "window size")
+    wins = [Slice(ex.world.new(store, VecV(v.cells[i:i + n]))) for i in range(0, max(0, len(v.cells) - n + 1))]
+    yield ("value", Iter("vec", cells=tuple(ex.world.new(store, w) for w in wins)), pc, store)
+
+
+@MODELS.add(r" as Iterator>::find::<")
+def m_iter_find(ex, callee, args, pc, store, depth):
+    """Iterator::find with a predicate closure (takes a reference to the item): forks on symbolic verdicts."""
+    it, f = args[0], args[1]
+    if isinstance(it, Ref):
+        it = store[it.cell]
+    for items, pc0, st0 in ex.iter_items(it, pc, store, depth):
+        def go(k, pcx, stx):
+            if k == len(items):
+                yield ("value", NONE, pcx, stx)
+                return
+            for kind, val, pcy, sty in ex.call_closure(f, [Ref(ex.world.new(stx, items[k]))], pcx, stx, depth):
+                if kind != "value":
+                    yield (kind, val, pcy, sty)
+                    continue
+                bt = z3.simplify(val.t)
+                if z3.is_true(bt):
+                    yield ("value", some(ex, sty, items[k]), pcy, sty)
+                elif z3.is_false(bt):
+                    yield from go(k + 1, pcy, sty)
+                else:
+                    hit, miss = ex.feasible(pcy + [bt]), ex.feasible(pcy + [z3.Not(bt)])
+                    if hit:
+                        st_hit = dict(sty) if miss else sty
+                        yield ("value", some(ex, st_hit, items[k]), pcy + [bt], st_hit)
+                    if miss:
+                        yield from go(k + 1, pcy + [z3.Not(bt)], sty)
+        yield from go(0, pc0, st0)
+
+
+@MODELS.add(r"^(std::vec::)?Vec::<.*>::extend::<|^<(std::vec::)?Vec<.*> as Extend<.*>>::extend::<")
+def m_vec_extend(ex, callee, args, pc, store, depth):
+    cell = args[0].cell
+    src = args[1]
+    if isinstance(src, VecV):
+        src = Iter("vec", cells=src.cells)
+    for items, pcx, stx in ex.iter_items(src, pc, store, depth):
+        v = stx[cell]
+        stx[cell] = VecV(list(v.cells) + [ex.world.new(stx, x) for x in items])
+        yield ("value", Unit(), pcx, stx)
 
 
 # ---- message / error construction: opaque
